@@ -109,7 +109,7 @@ static std::string traj_config(TrajCase const &c)
        "\n outputAppliedForce " + onoff(c.flags & 4) + "\n outputTotalForce " + onoff(c.flags & 8) +
        "\n distance {\n group1 { atomNumbers 1 }\n group2 { atomNumbers 2 }\n }\n}\n";
   // a variable evaluated every second step only: its column is there at every line (with the value it last took)
-  s += "colvar {\n name sl\n width 100.0\n timeStepFactor 2\n distance {\n group1 { atomNumbers 1 }\n group2 { atomNumbers 2 }\n }\n}\n";
+  s += "colvar {\n name sl\n width 100.0\n timeStepFactor 2\n outputVelocity on\n distance {\n group1 { atomNumbers 1 }\n group2 { atomNumbers 2 }\n }\n}\n";
   s += "colvar {\n name dv\n outputAppliedForce on\n distanceVec {\n group1 { atomNumbers 1 }\n group2 { atomNumbers 2 }\n }\n}\n";
   s += "harmonic {\n name h\n colvars d\n centers 1.0\n forceConstant 2.0\n targetCenters 3.0\n targetNumSteps 4\n outputEnergy " +
        onoff(c.flags & 16) + "\n outputCenters " + onoff(c.flags & 32) + "\n outputAccumulatedWork " + onoff(c.flags & 64) + "\n}\n";
@@ -200,6 +200,7 @@ static void check_traj_case(TrajCase const &c, Result &r, std::string const &pre
     q.col["ft_d"] = nums_of(d->ft_reported);
     q.col["dv"] = nums_of(dv->x_reported);
     q.col["sl"] = nums_of(px->cv("sl")->x_reported);
+    q.col["v_sl"] = nums_of(px->cv("sl")->v_reported);
     q.col["fa_dv"] = nums_of(dv->applied_force());
     q.col["E_h"] = {h->bias_energy};
     q.col["E_hv"] = {hv->bias_energy};
@@ -285,7 +286,7 @@ static void check_traj_case(TrajCase const &c, Result &r, std::string const &pre
   for (size_t i = 0; i < lines.size(); i++) {
     if (lines[i].step != expect[i]->step) { r.violation("C19:traj:wrong-step-number", c.json()); return; }
     // the announced columns must be exactly the outputs requested at that step
-    std::set<std::string> want = {"dv", "fa_dv", "E_hv", "E_w", "W_w", "sl"};
+    std::set<std::string> want = {"dv", "fa_dv", "E_hv", "E_w", "W_w", "sl", "v_sl"};
     int const fl = c.flags_at(lines[i].step);
     if (fl & 1) want.insert("d");
     if (fl & 2) want.insert("v_d");
@@ -341,6 +342,16 @@ static void check_traj_case(TrajCase const &c, Result &r, std::string const &pre
                     c.json().substr(0, c.json().size() - 1) + ",\"step\":" + std::to_string(s) + ",\"written\":" + num(a) +
                         ",\"expected\":" + num(vref) + "}");
     }
+  }
+  // ... and of the variable evaluated every second step: the difference of its last two values over the two steps between them
+  for (size_t i = 0; i < lines.size(); i++) {
+    long s = lines[i].step;
+    if (s < 2 || (s % 2) || expect[i]->run > 0 || !lines[i].col.count("v_sl")) continue;
+    double vref = 0.5 * (dist_of(VALS[c.word[s]]) - dist_of(VALS[c.word[s - 2]]));
+    double a = lines[i].col["v_sl"][0];
+    if (!close_rel(a, vref, std::max(1.0, std::fabs(vref)), 1e-11, 1e-12))
+      r.violation("C19:traj:velocity-not-finite-difference:variable-with-a-time-step-factor",
+                  c.json().substr(0, c.json().size() - 1) + ",\"step\":" + std::to_string(s) + ",\"written\":" + num(a) + ",\"expected\":" + num(vref) + "}");
   }
   r.seen("states", fnv(alltext));
   r.seen("nontrivial", fnv(c.json()));
